@@ -99,7 +99,7 @@ TOFIX        alpha[i] = abs(values[i]) * 2 * Pi * rf * duration / len(values)
         # create operator
         name = kwargs.pop("name", f"RFPulse({len(values)}, {duration}ms)")
         # total duration (per-sample durations are carried by the samples' own operators)
-        total = float(duration) if np.ndim(duration) == 0 else float(np.sum(duration))
+        total = np.asarray(duration)[()] if np.ndim(duration) == 0 else float(np.sum(duration))
         super().__init__(seq, name=name, duration=total)
 
 
@@ -175,7 +175,7 @@ def make_pulse_sequence(transform, values, duration, rf, offset=None):
 
     # operator durations
     if np.ndim(duration) == 0:
-        durations = np.ones(nvalue) * float(duration) / nvalue
+        durations = np.ones(nvalue) * np.asarray(duration)[()] / nvalue
     elif len(duration) == nvalue:
         durations = np.asarray(duration)
     else:
